@@ -65,72 +65,96 @@ JudgeSteps(cid, steps, i, s, want) ==
 SeqVerdicts == UNION {JudgeSteps(Cases[n].case, Cases[n].steps, 1, S0, {}) : n \in 1..Len(Cases)}
 
 (* ---- storms ------------------------------------------------------------------------------------------------
-   A storm = [case, invs: <<inv>>, out, gsc, hook] with one global sequence (seq) over invocation starts/ends and all
-   logged calls.  inv = [id, a, t0, t1, ret, owner, pre] where
-     owner = the channel the request a.r was created for (NoChid if never / not by a data-transfer request): static,
-             request ids are never reused;
-     pre   = for Transport methods, issued sequentially per channel by the channel's own goroutine together with every
-             event that changes that channel's adapter state: [req, reqCancelled, tracked, store] expected by the
-             generator's fold of GsTOps!Step over that channel's own events.
-   Rules (sound for any interleaving):
-     routed        handler calls of a lookup callback name owner; of InReq the implied id (authenticated peer)
-     silent        callbacks for ids without owner, requests without/with malformed extension: no handler call
-     afterCleanup  callback started after a Cleanup(owner) ended that started after the request's creation ended: silent
-     wireOnly, completedOnce (at most one, none for cancelled, exactly one if the mapping certainly exists), roleCheck
-     currentReq    Pause/Unpause/Cancel issued by a method name pre.req and are absent when there is none
-     storeLifetime registered options at the end = channels with UseStore and no later Cleanup (per owner goroutine)   *)
-OutOf(sm, id) == SelectSeq(sm.out, LAMBDA o : o.inv = id)
-GscOf(sm, id) == SelectSeq(sm.gsc, LAMBDA g : g.inv = id)
-HookOf(sm, id) == SelectSeq(sm.hook, LAMBDA h : h.inv = id)
+   A storm = [case, err, chans: <<[c, steps]>>, noise: <<inv>>, bg: <<handler call>>, opts] with one global sequence
+   over invocation starts (t0) / ends (t1) and all logged calls (seq).
+   chans[j].steps : the channel's OWN calls, issued sequentially by one goroutine: every Transport method on it, its
+                    incoming requests, requester-cancelled notices and request ends - i.e. everything that changes the
+                    adapter's state of that channel; request ids are local to the channel (the k-th is Pool[k]).  They are
+                    judged exactly like a sequential replay (fold through Step, conf + all rules); OpenChannel on a live
+                    request is one call here (the fake ends a cancelled request at once): StepX composes the model's steps.
+   noise          : every other callback, from other goroutines, for request ids of all channels; inv = [id, a, t0, t1,
+                    ret, owner, born, out, hook]: owner = channel the request was created for (NoChid: never created),
+                    born = end of the creating step.  Rules that hold for every interleaving:
+                      routed / silent / wireOnly / roleCheck / completedOnce as in GsTOps, with "mapped" weakened to
+                      "certainly mapped" (created before the callback started, no Cleanup started before it ended);
+                      afterCleanup: started after a Cleanup(owner) ended that began after the creation ended => silent.
+   bg             : handler calls made on goroutines of the adapter (executeGsRequest): C16.afterCleanup.consumer when the
+                    call comes after a Cleanup of its channel ended and no OpenChannel on it began since.               *)
+EnvA(op, r, x) == [A0 EXCEPT !.op = op, !.r = r, !.cret = IF op = "CancelRet" THEN x ELSE "", !.st = IF op = "Consume" THEN x ELSE ""]
+Cat(e, f) == [s |-> f.s, out |-> e.out \o f.out, gsc |-> e.gsc \o f.gsc, hook |-> e.hook \o f.hook,
+              ret |-> IF f.opret # "" THEN f.opret ELSE e.ret, opret |-> ""]
+RECURSIVE Settle(_, _)
+Settle(e, n) ==
+  LET o == e.s.opn IN
+  IF ~o.active \/ n = 0 THEN e
+  ELSE IF o.cret = "pending" /\ e.s.cons[o.creq].st = "run" THEN Settle(Cat(e, Step(e.s, EnvA("Consume", o.creq, "clientCancelled"))), n - 1)
+  ELSE IF o.cret = "pending" THEN Settle(Cat(e, Step(e.s, EnvA("CancelRet", o.creq, "ok"))), n - 1)
+  ELSE Settle(Cat(e, Step(e.s, EnvA("Tick", "", ""))), n - 1)
+StepX(s, a) ==
+  LET e == Step(s, a) IN
+  IF a.op = "Open" /\ e.ret = "parked" THEN Settle(e, 4)
+  ELSE IF a.op = "Close" /\ e.gsc # << >> /\ e.s.cons[e.gsc[1].r].st = "run"       \* the storm's fake ends a cancelled request at once
+       THEN Cat(e, Step(e.s, EnvA("Consume", e.gsc[1].r, "clientCancelled")))
+  ELSE e
 
-CleanedBefore(sm, v) ==     \* a Cleanup of v's owner that lies entirely between the creation of v's request and v's start
-  \E j \in 1..Len(sm.invs) : LET u == sm.invs[j] IN
-      u.a.op = "Cleanup" /\ u.a.c = v.owner /\ u.t1 < v.t0 /\ v.born >= 0 /\ v.born < u.t0
-CertainlyMapped(sm, v) ==   \* created before v started and no Cleanup of the owner started before v ended
-  /\ v.owner # NoChid /\ v.born >= 0 /\ v.born < v.t0
-  /\ ~\E j \in 1..Len(sm.invs) : sm.invs[j].a.op = "Cleanup" /\ sm.invs[j].a.c = v.owner /\ sm.invs[j].t0 < v.t1
+NoMode(q) == [i \in 1..Len(q) |-> IF q[i].call = "Cancel" THEN [q[i] EXCEPT !.x = ""] ELSE q[i]]   \* how the fake answers gs.Cancel
+ConfX(o, e) ==
+  /\ Outs(o) = CbOut(e.out) /\ NoMode(Gscs(o)) = NoMode(e.gsc) /\ Hooks(o) = e.hook
+  /\ (o.ret = e.ret \/ (e.ret = "hang" /\ o.ret = "nil"))
+  /\ RangeOf(o.opts) = e.s.opts
 
-StormInvRules(sm, v) ==
+RECURSIVE JudgeChan(_, _, _, _, _)
+JudgeChan(cid, steps, i, s, want) ==
+  IF i > Len(steps) THEN {}
+  ELSE LET o == steps[i]  a == o.a IN
+    IF ~Enabled(s, a)
+    THEN (IF o.ret = "noreq" THEN JudgeChan(cid, steps, i + 1, s, want) ELSE {Row(cid, o.id, o, "script")})   \* ending a request that is not running: no-op
+    ELSE
+      LET e == StepX(s, a)
+          want2 == CASE a.op = "UseStore" -> want \cup {a.c} [] a.op = "Cleanup" -> want \ {a.c} [] OTHER -> want
+          bad == (IF ConfX(o, e) THEN {} ELSE {"conf"}) \cup (StepRules(s, o, want2) \ {"C16.afterCleanup.consumer"})
+      IN {Row(cid, o.id, o, r) : r \in bad} \cup JudgeChan(cid, steps, i + 1, e.s, want2)
+
+OwnSteps(sm) == UNION {{sm.chans[j].steps[k] : k \in 1..Len(sm.chans[j].steps)} : j \in 1..Len(sm.chans)}
+Cleanups(sm, c) == {u \in OwnSteps(sm) : u.a.op = "Cleanup" /\ u.a.c = c}
+Opens(sm, c) == {u \in OwnSteps(sm) : u.a.op = "Open" /\ u.a.c = c}
+
+CleanedBefore(sm, v) == \E u \in Cleanups(sm, v.owner) : u.t1 < v.t0 /\ v.born >= 0 /\ v.born < u.t0
+CertainlyMapped(sm, v) == /\ v.owner # NoChid /\ v.born >= 0 /\ v.born < v.t0
+                          /\ ~\E u \in Cleanups(sm, v.owner) : u.t0 < v.t1
+
+NoiseRules(sm, v) ==
   LET a == v.a
-      out == OutOf(sm, v.id)
-      cbout == SelectSeq(out, LAMBDA o : o.src = "cb")
-      gsc == GscOf(sm, v.id)
-      hook == HookOf(sm, v.id)
-      cs == {cbout[i].c : i \in 1..Len(cbout)}
-      acts == SelectSeq(gsc, LAMBDA g : g.call \in {"Pause", "Unpause", "Cancel"}) IN
-     (IF CASE a.op \in LookupOps -> cs \subseteq {v.owner} /\ (v.owner = NoChid => cbout = << >>)
-           [] a.op = "InReq" -> (a.ext \in {"req", "resp"} => cs \subseteq {Implied(a.p, a.ext, a.tid)})
-           [] a.op = "Open" -> cs \subseteq {a.c}
+      out == Outs(v)
+      hook == Hooks(v)
+      cs == {out[i].c : i \in 1..Len(out)} IN
+     (IF CASE a.op \in LookupOps -> cs \subseteq {v.owner} /\ (v.owner = NoChid => out = << >>)
            [] a.op = "RecvErr" -> \A c \in cs : a.p \in {c.init, c.resp}
-           [] OTHER -> cbout = << >>
+           [] OTHER -> out = << >>
       THEN {} ELSE {"C16.routed"})
-  \cup (IF ((a.op \in LookupOps /\ v.owner = NoChid) \/ (a.op \in {"InReq", "OutReqHook"} /\ a.ext \in {"none", "malformed"})) => cbout = << >>
+  \cup (IF ((a.op \in LookupOps /\ v.owner = NoChid) \/ (a.op \in {"InReq", "OutReqHook"} /\ a.ext \in {"none", "malformed"})) => out = << >>
         THEN {} ELSE {"C16.silent"})
-  \cup (IF (a.op \in LookupOps /\ v.owner # NoChid /\ CleanedBefore(sm, v)) => cbout = << >> THEN {} ELSE {"C16.afterCleanup"})
-  \cup (IF (a.op \in {"OutBlock", "BlockSent"} /\ a.wire = 0) => cbout = << >> THEN {} ELSE {"C16.wireOnly"})
+  \cup (IF (a.op \in LookupOps /\ v.owner # NoChid /\ CleanedBefore(sm, v)) => out = << >> THEN {} ELSE {"C16.afterCleanup"})
+  \cup (IF (a.op \in {"OutBlock", "BlockSent"} /\ a.wire = 0) => out = << >> THEN {} ELSE {"C16.wireOnly"})
   \cup (IF a.op = "Completed" =>
-             /\ (a.st = "cancelled" => cbout = << >>)
-             /\ Len(cbout) <= 1
-             /\ \A i \in 1..Len(cbout) : cbout[i].call = "OnChannelCompleted" /\ cbout[i].x = (IF a.st = "full" THEN "ok" ELSE "err")
-             /\ ((a.st # "cancelled" /\ CertainlyMapped(sm, v) /\ v.ret # "nohook") => Len(cbout) = 1)
+             /\ (a.st = "cancelled" => out = << >>)
+             /\ Len(out) <= 1
+             /\ \A i \in 1..Len(out) : out[i].call = "OnChannelCompleted" /\ out[i].x = (IF a.st = "full" THEN "ok" ELSE "err")
+             /\ ((a.st # "cancelled" /\ CertainlyMapped(sm, v) /\ v.ret # "nohook") => Len(out) = 1)
         THEN {} ELSE {"C16.completedOnce"})
-  \cup (IF (a.op \in {"ReqUpdated", "InResp"} /\ v.owner # NoChid /\ a.ext \in {"req", "resp"} /\ Implied(a.p, a.ext, a.tid) # v.owner) => cbout = << >>
+  \cup (IF (a.op \in {"ReqUpdated", "InResp"} /\ v.owner # NoChid /\ a.ext \in {"req", "resp"} /\ Implied(a.p, a.ext, a.tid) # v.owner) => out = << >>
         THEN {} ELSE {"C16.roleCheck"})
-  \cup (IF a.op \in {"Pause", "Resume", "Close", "Open"} =>
-             LET want == CASE a.op = "Pause" -> "Pause" [] a.op = "Resume" -> "Unpause" [] OTHER -> "Cancel" IN
-             /\ \A i \in 1..Len(acts) : acts[i].call = want /\ acts[i].r = v.pre.req /\ v.pre.tracked
-             /\ ((v.pre.req = "none" \/ ~v.pre.tracked) => acts = << >>)
-             /\ Len(acts) <= 1
-        THEN {} ELSE {"C16.currentReq"})
-  \cup (IF a.op \in Callbacks => acts = << >> THEN {} ELSE {"C16.currentReq"})
+  \cup (IF v.gsc = << >> THEN {} ELSE {"C16.currentReq"})
+
+LateBg(sm, o) == \E u \in Cleanups(sm, o.c) : u.t1 < o.seq /\ ~\E w \in Opens(sm, o.c) : w.t0 > u.t1 /\ w.t0 < o.seq
 
 StormVerdicts(sm) ==
-  UNION {{[case |-> sm.case, i |-> sm.invs[k].id, rule |-> r, op |-> sm.invs[k].a.op, st |-> sm.invs[k].a.st, ext |-> sm.invs[k].a.ext, ret |-> sm.invs[k].ret] :
-             r \in StormInvRules(sm, sm.invs[k])} : k \in 1..Len(sm.invs)}
-  \cup (IF RangeOf(sm.opts) = RangeOf(sm.wantOpts) THEN {} ELSE {[case |-> sm.case, i |-> 0, rule |-> "C16.storeLifetime", op |-> "end", st |-> "", ext |-> "", ret |-> ""]})
-  \cup {[case |-> sm.case, i |-> sm.out[k].seq, rule |-> "C16.afterCleanup.consumer", op |-> "Consume", st |-> sm.out[k].call, ext |-> "", ret |-> ""] :
-           k \in {j \in 1..Len(sm.out) : sm.out[j].src = "bg" /\ sm.out[j].late}}
-  \cup (IF sm.err = "" THEN {} ELSE {[case |-> sm.case, i |-> 0, rule |-> "harness", op |-> "", st |-> "", ext |-> "", ret |-> sm.err]})
+  IF sm.err # "" THEN {[case |-> sm.case, i |-> 0, rule |-> "harness", op |-> "", st |-> "", ext |-> "", ret |-> sm.err]}
+  ELSE
+       UNION {JudgeChan(sm.case, sm.chans[j].steps, 1, S0, {}) : j \in 1..Len(sm.chans)}
+  \cup UNION {{Row(sm.case, sm.noise[k].id, sm.noise[k], r) : r \in NoiseRules(sm, sm.noise[k])} : k \in 1..Len(sm.noise)}
+  \cup {[case |-> sm.case, i |-> sm.bg[k].seq, rule |-> "C16.afterCleanup.consumer", op |-> "Consume", st |-> sm.bg[k].call, ext |-> "", ret |-> ""] :
+           k \in {j \in 1..Len(sm.bg) : LateBg(sm, sm.bg[j])}}
 
 AllStormVerdicts == UNION {StormVerdicts(Storms[n]) : n \in 1..Len(Storms)}
 
